@@ -21,6 +21,8 @@ typedef __float128 q_t;
 #define W "f64"
 #endif
 
+#include "h_mf_extreme.h"
+
 static uint64_t vf_ncases(int tier) { return tier ? 40000 : 1600; }
 
 static void pid_case(uint64_t c, vf_rng *r)
@@ -161,6 +163,6 @@ static void mf_case(vf_rng *r)
 
 static void vf_case(uint64_t c, vf_rng *r)
 {
-    if (c % 8 == 7) { mf_case(r); }
+    if (c % 8 == 7) { mf_case(r); mf_extreme(r, "/" W, 48); }
     else { pid_case(c, r); }
 }
